@@ -120,6 +120,64 @@ fn mapping(ctx: &Ctx) {
     }
 }
 
+/// A final reply whose parameters do not fit the caller's reply type is still the final reply:
+/// whatever the call reports, the connection is free afterwards.
+#[derive(serde_derive::Deserialize, Debug)]
+struct TypedReply {
+    #[allow(dead_code)]
+    a: i64,
+}
+
+fn typed_replies(ctx: &Ctx) {
+    type TMC = MethodCall<Value, TypedReply, varlink::Error>;
+    for params in [Some(json!({"a": "str"})), Some(json!({})), Some(json!({"a": 1})), Some(json!("str")), Some(json!([1])), Some(json!({"a": null})), Some(json!({"a": 1.5})), None] {
+        for mode in ["call", "more"] {
+            let mut fin = json!({});
+            if let Some(p) = &params {
+                fin["parameters"] = p.clone();
+            }
+            let script: Vec<Value> = if mode == "call" { vec![fin.clone()] } else { vec![json!({"continues": true, "parameters": {"a": 1}}), fin.clone()] };
+            let (conn, srv_end) = pair_connection();
+            let sc = script.clone();
+            let mut fs = spawn_fake(srv_end, move |req| if req.get("method").and_then(|m| m.as_str()) == Some("a.b.Typed") { sc.clone() } else { vec![json!({"parameters": {"again": true}})] }, 0);
+            let mut outcomes: Vec<String> = Vec::new();
+            let r = std::panic::catch_unwind(std::panic::AssertUnwindSafe(|| {
+                let mut mc = TMC::new(conn.clone(), "a.b.Typed", json!({}));
+                if mode == "call" {
+                    outcomes.push(format!("{:?}", mc.call().map(|_| "ok").map_err(|e| format!("{:?}", e.kind()))));
+                } else {
+                    match mc.more() {
+                        Err(e) => outcomes.push(format!("more failed {:?}", e.kind())),
+                        Ok(it) => {
+                            for x in it.take(5) {
+                                outcomes.push(format!("{:?}", x.map(|_| "ok").map_err(|e| format!("{:?}", e.kind()))));
+                            }
+                        }
+                    }
+                }
+            }));
+            let again = MC::new(conn.clone(), "a.b.Again", json!({})).call();
+            drop(conn);
+            fs.join();
+            ctx.case(Some(hash_of(&("typed", mode, params.as_ref().map(|p| p.to_string())))));
+            ctx.count("typed_reply_cases", 1);
+            let wit = |m: String| json!({"engine": "c07-typed", "mode": mode, "final_reply": fin, "caller_reply_type": "struct { a: int }", "outcomes": outcomes, "message": m});
+            if r.is_err() {
+                ctx.violation("c07:typed:client-call-panicked", wit("the client call panicked".into()));
+                continue;
+            }
+            if mode == "more" && outcomes.len() > 2 {
+                ctx.violation("c07:typed:iterator-continues-after-final", wit(format!("{} items for a 2-frame stream", outcomes.len())));
+            }
+            match again {
+                Ok(v) if v.get("again").is_some() => {}
+                Ok(v) => ctx.violation("c07:delivery:reply-delivered-to-other-call", wit(format!("the next call was handed {}", v))),
+                Err(e) => ctx.violation("c07:connection-not-reusable-after-final-reply", wit(format!("the call after a final reply that did not fit the reply type failed with {:?}", e.kind()))),
+            }
+        }
+    }
+}
+
 // ---------------------------------------------------------------- (ii) sequential op histories
 
 #[derive(Clone, Copy, Debug, PartialEq, Eq, Hash)]
@@ -508,6 +566,7 @@ pub fn main(ctx: &Ctx) -> i32 {
     ctx.assume("standard errors with missing or ill-typed parameters only need the right kind (their parameter default is not specified)");
     ctx.assume("after an iteration is abandoned (call object dropped with replies still owed) the statement does not say whether the connection stays busy; judged there: no later call is handed a reply it did not request, and a refused call writes nothing");
     mapping(ctx);
+    typed_replies(ctx);
     let maxlen = ctx.tier.pick(4, 6);
     let nw = workers();
     for len in 1..=maxlen {
